@@ -17,16 +17,16 @@ LEVEL_TEXT = (
     "C06_decode_sequence, C06_command_then_command and C06_parse_command_build are proved for every 3-digit code, every LF-free line list of any length and content, both "
     "framing modes, every following stream and every reply sequence (Closed under the global context). The model is "
     "hand-written; its tie to the code is a differential correspondence (about 5*10^4 cases per quick run, bounded-exhaustive "
-    "plus random, real bytes under whole/byte-by-byte/random segmentations, utf-8 and latin-1), so the assurance is a proof "
+    "plus random, real bytes under whole/byte-by-byte/random segmentations, utf-8 and seven single-byte code pages incl. a sweep of every byte value each codec can produce), so the assurance is a proof "
     "about the model plus sampled agreement of model and code."
 )
 LEVEL_NOTE = (
     "Trusted: Coq kernel; extraction (ExtrOcamlBasic only) cross-checked with vm_compute; harness. Assumed: codec commutes with "
-    "splitting at byte 10 and round-trips (utf-8, latin-1); StreamReader.readline is a function of the byte stream (exercised). "
+    "splitting at byte 10 and round-trips (utf-8 and the single-byte code pages latin-1, cp1251, koi8-r, cp866, cp437, cp1252, iso8859-15); StreamReader.readline is a function of the byte stream (exercised). "
     "Modelled not verified: CPython str methods (tables regenerated from the interpreter), asyncio streams, the 64 KiB line limit."
 )
 TRUSTED = [
-    "codec assumption: for utf-8 and latin-1, splitting the byte stream at byte 10 commutes with decoding and "
+    "codec assumption: for utf-8 and the single-byte code pages (latin-1, cp1251, koi8-r, cp866, cp437, cp1252, iso8859-15), splitting the byte stream at byte 10 commutes with decoding and "
     "decode(encode(t)) = t; the model works on decoded text, the implementation is fed real bytes (exercised, not proved)",
     "asyncio.StreamReader.readline is a function of the concatenated byte stream (exercised with explicit segmentations); "
     "its 64 KiB line limit is outside the model (see C19)",
@@ -36,6 +36,12 @@ ASSUMPTIONS = [
 ]
 
 ALPHA = ["1", "2", "5", "0", "-", " ", "a", "Z", "\r", "\t", "é", "²", "\x85", " ", "x", "٣", '"', "%"]
+# characters that encode to byte 0xFF / 0xA0 / high bytes in the single-byte code pages below
+ALPHA += ["ÿ", "я", "Ъ", "\xa0", "Я", "ю"]
+# every encoding the server/client pair is run with: utf-8 and single-byte code pages (the property says
+# "in either supported encoding": whatever `encoding=` both sides are configured with)
+SINGLE_BYTE = ["latin-1", "cp1251", "koi8-r", "cp866", "cp437", "cp1252", "iso8859-15"]
+ENCODINGS = ["utf-8"] + SINGLE_BYTE
 SPECIAL_LINES = ["", " ", "-", "250-foo", "250 foo", "250", "25", "123 x", "-x", " 12", "  ", "a-b", "999-", "2xx", "é", "x\r", "\r", " - ", "12²", "²²²", "٣٣٣ a"]
 CODES = ["250", "150", "226", "200", "550", "000", "999", "123", "257", "421"]
 
@@ -378,6 +384,51 @@ def item_wire_bad(code, other, head, body, bad):
     return "".join(l + "\r\n" for l in [code + "-" + head] + [code + "-" + b for b in body] + [other + " " + bad])
 
 
+def pick_enc(rng, texts):
+    """an encoding able to carry all of `texts`: utf-8 or one of the single-byte code pages"""
+    cands = [e for e in SINGLE_BYTE if all(encodable(t, e) for t in texts)]
+    if not cands or rng.random() < 0.35:
+        return "utf-8"
+    return rng.choice(cands)
+
+
+def codec_sweep():
+    """for every single-byte encoding, EVERY byte value the codec can produce (LF excepted: lines are
+    LF-free) as a character of the reply text - first, inner and last character of a line, in a
+    single-line, a multi-line and a listing-style reply - plus one line carrying all of them"""
+    cases = []
+    for enc in SINGLE_BYTE:
+        chars = []
+        for b in range(256):
+            try:
+                ch = bytes([b]).decode(enc)
+            except UnicodeDecodeError:
+                continue
+            if ch == "\n" or ch.encode(enc) != bytes([b]):
+                continue
+            chars.append(ch)
+            first, inner, last = ch + "a", "a" + ch + "b", "a" + ch
+            cases.append(("257", [inner], False, enc))
+            cases.append(("211", [first, inner, last], False, enc))
+            cases.append(("250", [last, first, inner], True, enc))
+        everything = "".join(chars)
+        cases.append(("200", [everything], False, enc))
+        cases.append(("250", ["start", everything, everything[::-1], "end"], True, enc))
+    return cases
+
+
+def empty_line_corpus():
+    """every line list of 1..4 lines over {empty, blank, text} in both framing modes: empty first, inner
+    and LAST lines (a closing line `NNN ` + CRLF arrives as `NNN` after rstrip)"""
+    cases = []
+    for n in (1, 2, 3, 4):
+        for ls in itertools.product(["", "a", " "], repeat=n):
+            for lm in (False, True):
+                if n >= (2 if lm else 1):
+                    cases.append(("214", list(ls), lm, "utf-8"))
+    return cases
+
+
 def correspondence(ctx, budget=None):
     rng = ctx.rng
     thorough = ctx.tier == "thorough"
@@ -386,7 +437,10 @@ def correspondence(ctx, budget=None):
     ctx.extra["rule"] = (
         "streams: (a) bounded-exhaustive line lists over a 6-symbol alphabet (<=2 chars, <=3 lines) x both framing modes, "
         "(b) random replies from a metacharacter-biased alphabet incl. header-like lines, followed by a second reply, "
-        "each decoded by the real client under whole / byte-by-byte / random segmentations in utf-8 and latin-1, "
+        "each decoded by the real client under whole / byte-by-byte / random segmentations in utf-8 and seven single-byte code pages, "
+        "(a') codec sweep: per single-byte encoding every byte value the codec can produce (LF excepted) as first / inner / last "
+        "character of a line in a single-line, multi-line and listing-style reply + one line with all of them; every line list of "
+        "1-4 lines over {empty, blank, text} in both modes, "
         "(c) raw malformed reply streams (code mismatches, non-digit codes, EOF), (d) all mask x code pairs over a 7-symbol "
         "alphabet up to length 3, (e) successive command() calls on one stream of 1-5 replies (single-line, multi-line and "
         "listing-style interleaved; bounded-exhaustive core over 3 codes x <=3 replies x 5 expected x 6 wait mask sets, plus random "
@@ -396,8 +450,8 @@ def correspondence(ctx, budget=None):
         "correspondence only, replies with non-3-digit codes) decoded by successive parse_response calls. A case is non-trivial "
         "when distinct (hash of input); trivial = duplicate input."
     )
-    servers = {e: aioftp.Server(encoding=e) for e in ("utf-8", "latin-1")}
-    clients = {e: aioftp.Client(encoding=e) for e in ("utf-8", "latin-1")}
+    servers = {e: aioftp.Server(encoding=e) for e in ENCODINGS}
+    clients = {e: aioftp.Client(encoding=e) for e in ENCODINGS}
 
     # ---------------- (a)+(b) encode then decode
     enc_cases = []
@@ -409,14 +463,17 @@ def correspondence(ctx, budget=None):
             for lm in (False, True):
                 enc_cases.append(("250", list(ls), lm, "utf-8"))
     ctx.count("encode_exhaustive", len(enc_cases))
+    sweep = codec_sweep()
+    ctx.count("encode_codec_sweep", len(sweep))
+    empties = empty_line_corpus()
+    ctx.count("encode_empty_line_corpus", len(empties))
+    enc_cases += sweep + empties
     for _ in range(n_rand):
         code = rng.choice(CODES) if rng.random() < 0.7 else "".join(rng.choice("0123456789") for _ in range(3))
         n = rng.choice([1, 1, 2, 2, 3, 4, 6])
         lines = [gen_line(rng) for _ in range(n)]
         lm = rng.random() < 0.5
-        enc = rng.choice(["utf-8", "latin-1"])
-        if not all(encodable(l, enc) for l in lines):
-            enc = "utf-8"
+        enc = pick_enc(rng, lines)
         enc_cases.append((code, lines, lm, enc))
     # a few degenerate ones: too few lines (server raises)
     enc_cases += [("250", [], False, "utf-8"), ("250", [], True, "utf-8"), ("250", ["a"], True, "utf-8")]
@@ -498,7 +555,7 @@ def correspondence(ctx, budget=None):
             ls.append(c + sep + gen_line(rng))
         term = rng.choice(["\r\n", "\r\n", "\n", "\r\n"])
         s = term.join(ls) + (term if rng.random() < 0.85 else "")
-        enc = "utf-8" if not encodable(s, "latin-1") or rng.random() < 0.5 else "latin-1"
+        enc = pick_enc(rng, [s])
         raw_cases.append((s, enc))
     raw_out = ctx.model([(1, [s]) for s, _ in raw_cases])
     kinds = {0: 0, 1: 0, 2: 0}
@@ -586,9 +643,7 @@ def correspondence(ctx, budget=None):
             if not e and not w:
                 w = [rng.choice(in_play + MASKS_FULL[:3])]
             cmds.append([e, w])
-        enc = rng.choice(["utf-8", "latin-1"])
-        if not all(encodable(l, enc) for r in replies for l in r[1]):
-            enc = "utf-8"
+        enc = pick_enc(rng, [l for r in replies for l in r[1]])
         cmd_cases.append((replies, cmds, enc, rng.random()))
     ctx.count("command_random", n_cmd)
     cmd_jobs = []
@@ -648,9 +703,7 @@ def correspondence(ctx, budget=None):
                 rp[0] = rng.choice(odd_codes)
                 items.append(["good"] + rp)
                 in_domain = False
-        enc = rng.choice(["utf-8", "latin-1"])
-        if not all(encodable(x, enc) for it in items for x in ([it[1]] + it[2] if it[0] == "good" else [it[1], it[2], it[3], it[5]] + it[4])):
-            enc = "utf-8"
+        enc = pick_enc(rng, [x for it in items for x in ([it[1]] + it[2] if it[0] == "good" else [it[1], it[2], it[3], it[5]] + it[4])])
         seq_cases.append((items, enc, in_domain))
     seq_jobs = []
     for items, enc, in_domain in seq_cases:
@@ -717,10 +770,11 @@ def correspondence(ctx, budget=None):
             arg = gen_line(rng).replace("\n", "")
             if arg != arg.rstrip() or not arg:
                 continue
-            ctx.case(("pcb", verb, arg))
-            kind, val, rest = impl_parse_command(loop, servers["utf-8"], [(verb + " " + arg + "\r\n").encode("utf-8")])
+            enc = pick_enc(rng, [arg])
+            ctx.case(("pcb", verb, arg, enc))
+            kind, val, rest = impl_parse_command(loop, servers[enc], [(verb + " " + arg + "\r\n").encode(enc)])
             if kind != "ok" or val != (verb.lower(), arg):
-                ctx.violation("command line not parsed back to (verb, arg)", {"key": "c06-parse-command", "verb": verb, "arg": arg, "got": repr(val)})
+                ctx.violation("command line not parsed back to (verb, arg)", {"key": "c06-parse-command", "verb": verb, "arg": arg, "encoding": enc, "got": repr(val)})
     ctx.count("parse_command_lines", len(pc_cases))
 
     ok, out = __import__("harness.core", fromlist=["x"]).vm_crosscheck(EXTRACT, xcheck)
@@ -797,7 +851,7 @@ def replay(ctx, data):
         print("wire:", data_b, "\ngot:     ", got, "rest:", rest, "\nexpected:", want)
         return got == want and rest == b""
     if r.get("key") == "c06-parse-command":
-        kind, val, rest = impl_parse_command(loop, aioftp.Server(), [(r["verb"] + " " + r["arg"] + "\r\n").encode("utf-8")])
+        kind, val, rest = impl_parse_command(loop, aioftp.Server(encoding=enc), [(r["verb"] + " " + r["arg"] + "\r\n").encode(enc)])
         print("parsed:", kind, val)
         return kind == "ok" and val == (r["verb"].lower(), r["arg"])
     if r.get("key") == "c06-mismatch-accepted":
